@@ -201,6 +201,9 @@ func (s *Sys) Unmount() {
 	simdisk.Unregister(s.Disk)
 }
 
+// sliceOf builds a slice whose element type need not be nameable here (the option type of wal.Open is unexported).
+func sliceOf[T any](v ...T) []T { return v }
+
 // Open opens the WAL (real wal + segment + fs packages, simulated OS, simMeta).
 func (s *Sys) Open() error {
 	var ms types.MetaStore
@@ -214,27 +217,22 @@ func (s *Sys) Open() error {
 	}
 	var w *wal.WAL
 	var err error
-	if s.Real {
-		switch {
-		case s.Codec != nil:
-			w, err = wal.Open(s.Dir, wal.WithMetaStore(ms), wal.WithSegmentSize(s.Cfg.SegSize), wal.WithLogger(nullLogger), wal.WithCodec(s.Codec))
-		case s.MC != nil:
-			w, err = wal.Open(s.Dir, wal.WithMetaStore(ms), wal.WithSegmentSize(s.Cfg.SegSize), wal.WithLogger(nullLogger), wal.WithMetricsCollector(s.MC))
-		default:
-			w, err = wal.Open(s.Dir, wal.WithMetaStore(ms), wal.WithSegmentSize(s.Cfg.SegSize), wal.WithLogger(nullLogger))
-		}
-	} else {
-		// the production filer over the production fs package, with one observation point: what Create hands out
-		filer := wal.WithSegmentFiler(segment.NewFiler(s.Dir, &createCheckVFS{VFS: fs.New(), s: s}))
-		switch {
-		case s.Codec != nil:
-			w, err = wal.Open(s.Dir, filer, wal.WithMetaStore(ms), wal.WithSegmentSize(s.Cfg.SegSize), wal.WithLogger(nullLogger), wal.WithCodec(s.Codec))
-		case s.MC != nil:
-			w, err = wal.Open(s.Dir, filer, wal.WithMetaStore(ms), wal.WithSegmentSize(s.Cfg.SegSize), wal.WithLogger(nullLogger), wal.WithMetricsCollector(s.MC))
-		default:
-			w, err = wal.Open(s.Dir, filer, wal.WithMetaStore(ms), wal.WithSegmentSize(s.Cfg.SegSize), wal.WithLogger(nullLogger))
-		}
+	// unless the engine brings its own collector, the WAL runs with the bundled validating collector built from
+	// the published definitions: a metric emitted under a name that is not declared (or declared as the other
+	// kind) panics, on whatever path - recovery, error handling, background rotation - it is emitted
+	mc := s.MC
+	if mc == nil {
+		mc = metrics.NewAtomicCollector(wal.MetricDefinitions)
 	}
+	opts := sliceOf(wal.WithMetaStore(ms), wal.WithSegmentSize(s.Cfg.SegSize), wal.WithLogger(nullLogger), wal.WithMetricsCollector(mc))
+	if s.Codec != nil {
+		opts = append(opts, wal.WithCodec(s.Codec))
+	}
+	if !s.Real {
+		// the production filer over the production fs package, with one observation point: what Create hands out
+		opts = append(opts, wal.WithSegmentFiler(segment.NewFiler(s.Dir, &createCheckVFS{VFS: fs.New(), s: s})))
+	}
+	w, err = wal.Open(s.Dir, opts...)
 	if err != nil {
 		s.W = nil
 		return err
